@@ -60,6 +60,7 @@ type World struct {
 	iters    []*IterCtx
 	inits    []*initReg
 	allTxns  []*WTxn
+	allIters []*IterCtx
 	curFloor *floor
 
 	gcInterval time.Duration
@@ -114,6 +115,7 @@ func trimStack(s string) string {
 }
 
 var leakedTxns []statedb.WriteTxn
+var leakedIters []statedb.ChangeIterator[*Obj]
 
 // Run executes one run of dbworld for the given property.
 func Run(t *testing.T, prop, tier string, c *simcore.Choices, full bool) *simcore.RunResult {
@@ -146,8 +148,15 @@ func Run(t *testing.T, prop, tier string, c *simcore.Choices, full bool) *simcor
 	// A write transaction left open by a run that ended in a violation must
 	// stay reachable: statedb's finalizer panics on unfinished transactions.
 	for _, wt := range w.allTxns {
-		if !wt.finished && wt.txn != nil {
+		if !wt.done && wt.txn != nil {
 			leakedTxns = append(leakedTxns, wt.txn)
+		}
+	}
+	// Likewise an unclosed change iterator must stay reachable: its cleanup
+	// would run a write transaction from the runtime's cleanup goroutine.
+	for _, ic := range w.allIters {
+		if !ic.closed {
+			leakedIters = append(leakedIters, ic.it)
 		}
 	}
 	res.Choices = c.Trace
